@@ -211,6 +211,36 @@ CLAIMS = {
         ref="4 C17"),
 }
 
+
+# round 10 additions (appended to the claims above)
+EXTRA = {
+    "C02": ("; both public walk routes evaluated end to end against a model of walkdir",
+            " Every walk route, evaluated end to end with the walkdir model, asks walkdir on the base joined with the prefix (C20.source)."),
+    "C07": ("; variant tables of the tree rebuild used by `any`",
+            " The trees `any` rebuilds (fold_map: decompose / compose) keep kinds, children, repetition bounds and literal flags (C19.kinds)."),
+    "C08": ("; parser + Tokenized::partition evaluated from THIR on a text catalogue, the displayed postfix parsed again",
+            " On ~850 texts with flags / escapes / multi-byte text / invariant groups / rooted and `..` prefixes the displayed postfix is a suffix of the text, "
+            "holds the remaining tokens, and parses again into the same tokens with the same spans, with spans taken from the parser itself (C08.text)."),
+    "C10": ("; Program::depth evaluated on a grid of internal variances and read through the public accessors",
+            " Program::depth of Glob and Any hands out, in the public types, exactly the interval of the internal variance for 20 variance shapes (C10.public)."),
+    "C11": ("; variant tables of the owning conversion",
+            " The owning conversion keeps every leaf of the tree, the case flag of a literal included (C19.kinds), so an owned glob reports the text of the glob it was made from."),
+    "C12": ("; the public query Glob::has_semantic_literals evaluated on catalogue trees with an abstract std::path model",
+            " C12.dots evaluates the public query itself."),
+    "C13": ("; decision cells of the glob walker's closure; sibling rule for the combinators' Iterator::next",
+            " A directory whose own component fails the program of its depth is discarded as a tree and any other non-matching entry as a file, on 320 cells of the "
+            "glob walker (C02.prune); every combinator yields the filtrate of its own feed (C16.next)."),
+    "C15": ("; Glob::new + Glob::walk_with_behavior + first next() evaluated end to end on a catalogue of glob texts x bases x behaviours against a hand-written reference; conversion tables",
+            " End to end from the glob text (C15.reach, 2 622 cells, 1 560 of them demanding): whenever a possible match lies inside the depth bounds, walkdir is consulted on the base "
+            "joined with the prefix with exactly the translated window and link behaviour; every From conversion into WalkBehavior / DepthBehavior and the defaults are as documented (C15.convert)."),
+    "C16": ("; sibling rule for the combinators' Iterator::next",
+            " Iterator::next of the four separating filters is filter::filtrate of the combinator itself (C16.next)."),
+    "C20": ("; both public walk routes evaluated end to end against a model of walkdir, unmodelled calls answering unknowns",
+            " Every walk consults walkdir on its root whatever an unmodelled call (a file-system probe) answers, so a fault at the root is reported by walkdir and cannot be pre-empted (C20.source)."),
+}
+for _pid, (_t, _x) in EXTRA.items():
+    CLAIMS[_pid] = dict(CLAIMS[_pid], technique=CLAIMS[_pid]["technique"] + _t, text=CLAIMS[_pid]["text"] + _x)
+
 NA_DEFAULT = "check not built yet (work in progress; see DESIGN.md section 4 for the planned rules)"
 NA = {}
 
